@@ -254,7 +254,7 @@ func (r *runner) directLeg() {
 			o := try(func() (V, error) { return ov.d.Function(args) })
 			v := judge(ov.name, args, e, known, o)
 			r.account("direct", id, ov.name, args, v, o, nil)
-			if i < 2 && v.status == "ok" {
+			if (i < 2 || i%499 == 0) && v.status == "ok" {
 				c.Sample(map[string]interface{}{"id": id, "call": callString(ov.name, args), "result": o.String()})
 			}
 		})
